@@ -2,6 +2,7 @@
 from vlib import dtwrap
 
 ID = "C02"
+NO_COVERAGE = True      # the cases live inside a stand-alone differential script (tools/difftest_*.py), not in this module
 LEAN_MODULES = ["LhasaV.Props.C02"]
 VH_FEATURES = ["decoder"]
 THEOREMS = {"lh1_lockstep": "FULL STATEMENT: every symbol sequence, any length, any number of rebuilds: decoder tree = mirror image of the LZHUF tree",
